@@ -29,6 +29,11 @@ Qed.
 Lemma ready_le dl p : (ready dl p <= length (cat p))%nat.
 Proof. destruct dl; [apply ready_before_le | cbn; lia]. Qed.
 
+(* the moment at which everything that is pending will have arrived *)
+Fixpoint last_from (t : Z) (p : list (Z * list N)) : Z :=
+  match p with [] => t | (a, _) :: r => last_from (Z.max t a) r end.
+Definition last_time (c : chan) : Z := last_from (now (io c)) (pend (io c)).
+
 (* one loop iteration when something arrives in time *)
 Lemma iter_step_live start tmo n c :
   (0 < n)%nat -> wfc c -> deaths c = [] -> in_time start tmo c ->
@@ -37,7 +42,8 @@ Lemma iter_step_live start tmo n c :
     new <> [] /\ cpend c = new ++ cpend c' /\
     (length new <= ready (deadline start tmo) (pend (io c)))%nat /\
     ready (deadline start tmo) (pend (io c')) = (ready (deadline start tmo) (pend (io c)) - length new)%nat /\
-    wfc c' /\ deaths c' = [] /\ in_time start tmo c' /\ (tot (pend (io c')) < tot (pend (io c)))%nat.
+    wfc c' /\ deaths c' = [] /\ in_time start tmo c' /\ (tot (pend (io c')) < tot (pend (io c)))%nat /\
+    last_time c' = last_time c.
 Proof.
   intros Hn Hw Hd Ht Hr.
   destruct (iter_step start tmo n c) as [r c'] eqn:E.
@@ -82,8 +88,10 @@ Proof.
       destruct (skipn n d) eqn:Es; cbn [ready_before length] in *; [lia|]. rewrite Q. cbn [length]. lia.
     - unfold cat. destruct (skipn n d) eqn:Es; cbn [map concat snd length] in *; rewrite ?app_length; cbn [length]; lia. }
   split; [exact Hw'|]. split; [rewrite W3; exact Hd|].
-  split; [|exact N4].
-  unfold in_time. rewrite W1. destruct tmo as [T|]; [|exact I]. subst io'. cbn [now io with_io]. cbn in Ht. lia.
+  split; [|split; [exact N4|]].
+  - unfold in_time. rewrite W1. destruct tmo as [T|]; [|exact I]. subst io'. cbn [now io with_io]. cbn in Ht. lia.
+  - unfold last_time. rewrite Hpend', W1, Ep. subst io'. cbn [now io with_io last_from].
+    destruct (skipn n d); cbn [last_from]; [reflexivity|]. f_equal. lia.
 Qed.
 
 (* patterns for which a match never disappears when more data arrives (all literals are) *)
@@ -120,7 +128,7 @@ Proof.
   assert (Hpos : (0 < ready (deadline start tmo) (pend (io c)))%nat).
   { destruct (ready (deadline start tmo) (pend (io c))) eqn:E; [|lia]. cbn [firstn] in Hr. rewrite app_nil_r in Hr. congruence. }
   destruct (iter_step_live start tmo READ_CHUNK_SIZE c chunk_pos Hw Hd Ht Hpos)
-    as (new & c1 & Es & N1 & N2 & N3 & N4 & Hw1 & Hd1 & Ht1 & Htot).
+    as (new & c1 & Es & N1 & N2 & N3 & N4 & Hw1 & Hd1 & Ht1 & Htot & _).
   cbn [expect_loop]. rewrite Es.
   destruct (try_patterns 0 pats (buf ++ new)) as [r|] eqn:Etp; [eauto|].
   apply IH; auto; [|lia].
@@ -229,3 +237,95 @@ Example expect_literal_live_example :
    | _, _ => False
    end).
 Proof. vm_compute. repeat split; lia. Qed.
+
+(* ================================================================== the converse: expect with a timeout is decided by
+   what arrives before the deadline *)
+Local Open Scope Z_scope.
+
+Lemma iter_step_data_pos start T n c new c' :
+  iter_step start (Some T) n c = (SData new, c') -> (0 < n)%nat -> wfc c ->
+  in_time start (Some T) c /\ (0 < ready (deadline start (Some T)) (pend (io c)))%nat.
+Proof.
+  intros H Hn Hw. unfold iter_step in H.
+  destruct (T - (now (io c) - start) <=? 0) eqn:Erem; [discriminate|].
+  assert (Ht : now (io c) < start + T) by lia.
+  split; [exact Ht|]. cbn [deadline option_map ready].
+  unfold io_read in H. destruct n as [|n']; [lia|].
+  cbn [log_read pend now] in H.
+  destruct (pend (io c)) as [|[a d] rest] eqn:Ep; [discriminate|].
+  assert (Hd : d <> []) by (unfold wfc, wf_pend in Hw; rewrite Ep in Hw; inversion Hw; subst; assumption).
+  cbn [ready_before].
+  assert (Ha : a <? start + T = true).
+  { destruct (a <=? now (io c)) eqn:Q1; [lia|].
+    destruct (a <? now (io c) + (T - (now (io c) - start))) eqn:Q2; [lia | discriminate]. }
+  rewrite Ha. destruct d; [congruence | cbn [length]; lia].
+Qed.
+
+Lemma expect_loop_timed_total fuel : forall start T pats buf c,
+  wfc c -> deaths c = [] -> (tot (pend (io c)) < fuel)%nat -> now (io c) <= start + T ->
+  match expect_loop fuel start (Some T) pats buf c with
+  | (Ret r, c') => exists data, data <> [] /\ cpend c = data ++ cpend c' /\ try_patterns 0 pats (buf ++ data) = Some r /\
+                                (length data <= ready (Some (start + T)%Z) (pend (io c)))%nat
+  | (ETimeout, c') => now (io c') = start + T
+  | _ => False
+  end.
+Proof.
+  induction fuel as [|f IH]; intros start T pats buf c Hw Hd Hf Hle; [lia|].
+  rewrite expect_loop_step.
+  destruct (iter_step start (Some T) READ_CHUNK_SIZE c) as [sr c1] eqn:Es.
+  destruct (iter_step_time _ _ _ _ _ _ Es chunk_pos Hle) as (T1 & T2 & T3 & T4).
+  destruct (iter_step_deaths_nil _ _ _ _ _ _ Es Hd) as (Hd1 & Hnd).
+  destruct sr as [new| | |e mt]; [|auto|congruence|exfalso; eapply Hnd; reflexivity].
+  destruct (iter_step_data_pos _ _ _ _ _ _ Es chunk_pos Hw) as [Ht Hpos].
+  destruct (iter_step_live start (Some T) READ_CHUNK_SIZE c chunk_pos Hw Hd Ht Hpos)
+    as (new' & c1' & Es' & N1 & N2 & N3 & N4 & Hw1 & _ & Ht1 & Htot & _).
+  rewrite Es in Es'. injection Es' as <- <-.
+  cbn [deadline option_map] in N3, N4.
+  destruct (try_patterns 0 pats (buf ++ new)) as [r|] eqn:Etp.
+  - exists new. auto.
+  - specialize (IH start T pats (buf ++ new) c1 Hw1 Hd1 ltac:(lia) T1).
+    destruct (expect_loop f start (Some T) pats (buf ++ new) c1) as [[r| | | | | |] c'] eqn:El; try exact IH.
+    destruct IH as (data & D1 & D2 & D3 & D4).
+    exists (new ++ data). split; [destruct new; [congruence | discriminate]|].
+    split; [rewrite N2, D2, app_assoc; reflexivity|]. split; [rewrite app_assoc; exact D3|].
+    cbn [ready] in D4, N3, N4 |- *. rewrite app_length. rewrite N4 in D4. lia.
+Qed.
+
+Local Close Scope Z_scope.
+
+(* expect(literal, timeout=T) on a channel without death strings is decided by the bytes that arrive strictly before
+   the deadline, for every fragmentation and timing: it returns iff the literal occurs among them; otherwise it raises
+   TimeoutError exactly at the deadline *)
+Theorem expect_literal_timed_iff l T c :
+  wfc c -> deaths c = [] -> (0 < T)%Z -> l <> [] ->
+  let R := firstn (ready (Some (now (io c) + T)%Z) (pend (io c))) (cpend c) in
+  match expect [SLit l] (Some T) c with
+  | (Ret r, c') => contains l R = true /\ er_idx r = 0 /\ er_match r = l
+  | (ETimeout, c') => contains l R = false /\ now (io c') = (now (io c) + T)%Z
+  | _ => False
+  end.
+Proof.
+  intros Hw Hd HT Hl R.
+  pose proof (expect_loop_timed_total (fuel_of c) (now (io c)) T [SLit l] [] c Hw Hd (fuel_of_enough c) ltac:(lia)) as Tot.
+  unfold expect. destruct (expect_loop (fuel_of c) (now (io c)) (Some T) [SLit l] [] c) as [[r| | | | | |] c'] eqn:E; try exact Tot.
+  - destruct Tot as (data & D1 & D2 & D3 & D4). cbn [app try_patterns pat_hit] in D3.
+    destruct (find_sub l data) as [a|] eqn:F; [|discriminate]. injection D3 as <-. cbn [er_idx er_match].
+    pose proof (find_sub_Some _ _ _ F) as (x & y & Ed & Lx).
+    split; [|split; [reflexivity|]].
+    + apply contains_spec. unfold R. rewrite D2.
+      exists x, (y ++ firstn (ready (Some (now (io c) + T)%Z) (pend (io c)) - length data) (cpend c')).
+      rewrite firstn_app, firstn_all2 by lia. rewrite Ed, <- !app_assoc. reflexivity.
+    + unfold sublist. rewrite Ed, <- Lx, skipn_app_exact.
+      replace (length x + length l - length x) with (length l) by lia. apply firstn_app_exact.
+  - split; [|exact Tot]. destruct (contains l R) eqn:C; [|reflexivity]. exfalso.
+    unfold contains in C. destruct (find_sub l R) as [a|] eqn:F; [|discriminate].
+    (* the first occurrence in the whole stream lies within the bytes that arrive in time *)
+    pose proof (find_sub_Some _ _ _ F) as (x & y & ER & Lx).
+    assert (Fs : find_sub l (cpend c) = Some a).
+    { unfold R in F. rewrite <- (firstn_skipn (ready (Some (now (io c) + T)%Z) (pend (io c))) (cpend c)).
+      apply find_sub_app. exact F. }
+    assert (Hfit : a + length l <= ready (deadline (now (io c)) (Some T)) (pend (io c))).
+    { cbn [deadline option_map]. apply (f_equal (@length N)) in ER. unfold R in ER. rewrite firstn_length, !app_length in ER. lia. }
+    destruct (expect_literal_live l (Some T) c a Hw Hd HT Hl Fs Hfit) as (r & c2 & data & Ex & _).
+    unfold expect in Ex. rewrite E in Ex. discriminate.
+Qed.
